@@ -3,6 +3,7 @@
 -/
 import Std.Data.String.ToInt
 import Prov.Lemmas.Record
+import Prov.Lemmas.NsMgr
 import Prov.Heap
 
 namespace Prov.C05
@@ -48,8 +49,26 @@ theorem ref_not_time (a : QName) (h : isRefAttr a = true) : isTimeAttr a = false
   simp only [List.mem_cons, List.mem_nil_iff, or_false] at hl hl'
   rcases hl' with rfl | rfl | rfl <;> simp at hl
 
+theorem xsdParserOf_congr {a b : QName} (h : a.uri = b.uri) : xsdParserOf a = xsdParserOf b := by
+  simp [xsdParserOf, h]
+
+theorem rehomeLit_normal (m : NsMgr) (hm : m.Inv1) (lex : String) (ty : Option QName) (lang : Option String)
+    (v : Value) (h : (rehomeLit m lex ty lang).2 = .ok v)
+    (hnorm : normalLit (.lit lex ty lang) = true) : normalLit v = true := by
+  cases ty with
+  | none => simp only [rehomeLit] at h; cases h; exact hnorm
+  | some t =>
+    simp only [rehomeLit] at h
+    cases h
+    cases lang with
+    | some l => rfl
+    | none =>
+      have hu := NsMgr.validQ_uri hm t
+      simp only [normalLit, xsdParserOf_congr hu] at hnorm ⊢
+      exact hnorm
+
 /-- whatever `_auto_literal_conversion` stores is normalised -/
-theorem autoLiteral_normal (m : NsMgr) (x : ArgVal) (f : Option FloatAtom) (v : Value)
+theorem autoLiteral_normal (m : NsMgr) (hm : m.Inv1) (x : ArgVal) (f : Option FloatAtom) (v : Value)
     (h : (autoLiteral m x f).2 = .ok v) : normalLit v = true := by
   cases x with
   | nil => simp [autoLiteral] at h
@@ -62,14 +81,18 @@ theorem autoLiteral_normal (m : NsMgr) (x : ArgVal) (f : Option FloatAtom) (v : 
     | qn q => simp only [autoLiteral] at h; cases h; rfl
     | lit lex ty lang =>
       cases lang with
-      | some l => simp only [autoLiteral] at h; cases h; cases ty <;> rfl
+      | some l =>
+        simp only [autoLiteral] at h
+        exact rehomeLit_normal m hm lex ty (some l) v h (by cases ty <;> rfl)
       | none =>
         cases ty with
         | none => simp only [autoLiteral] at h; cases h; rfl
         | some t =>
           simp only [autoLiteral] at h
           cases hp : xsdParserOf t with
-          | none => simp only [hp] at h; cases h; simp [normalLit, hp]
+          | none =>
+            simp only [hp] at h
+            exact rehomeLit_normal m hm lex (some t) none v h (by simp [normalLit, hp])
           | some p =>
             simp only [hp] at h
             cases hx : parseXsd p lex f with
@@ -83,7 +106,8 @@ theorem autoLiteral_normal (m : NsMgr) (x : ArgVal) (f : Option FloatAtom) (v : 
               · split at hx <;> cases hx; rfl
               · cases hx; rfl
             | isNone =>
-              simp only [hx] at h; cases h
+              simp only [hx] at h
+              apply rehomeLit_normal m hm lex (some t) none v h
               simp only [normalLit, hp]
               cases p <;> simp only [parseXsd] at hx ⊢
               all_goals first
@@ -97,8 +121,45 @@ theorem autoLiteral_normal (m : NsMgr) (x : ArgVal) (f : Option FloatAtom) (v : 
     | dt _ => simp only [autoLiteral] at h; cases h; rfl
     | uri _ => simp only [autoLiteral] at h; cases h; rfl
 
+theorem autoLiteral_inv1 (m : NsMgr) (hm : m.Inv1) (x : ArgVal) (f : Option FloatAtom) :
+    (autoLiteral m x f).1.Inv1 := by
+  have hre : ∀ lex ty lang, (rehomeLit m lex ty lang).1.Inv1 := by
+    intro lex ty lang
+    cases ty with
+    | none => exact hm
+    | some t => exact NsMgr.validQ_inv1 hm t
+  cases x with
+  | nil => exact hm
+  | recId id =>
+    cases id with
+    | none => exact hm
+    | some q => exact NsMgr.validQ_inv1 hm q
+  | val w =>
+    cases w with
+    | qn q => exact NsMgr.validQ_inv1 hm q
+    | lit lex ty lang =>
+      cases lang with
+      | some l => exact hre lex ty (some l)
+      | none =>
+        cases ty with
+        | none => exact hm
+        | some t =>
+          simp only [autoLiteral]
+          split
+          · split
+            · exact hm
+            · exact hre lex (some t) none
+            · exact hm
+          · exact hre lex (some t) none
+    | str _ => exact hm
+    | int _ => exact hm
+    | bool _ => exact hm
+    | float _ => exact hm
+    | dt _ => exact hm
+    | uri _ => exact hm
+
 /-- what `convValue` yields is of the right kind for the attribute class -/
-theorem convValue_kind (par : Option NsMgr) (m : NsMgr) (attr : QName) (a : AttrArg) (v : Value)
+theorem convValue_kind (par : Option NsMgr) (m : NsMgr) (hm : m.Inv1) (attr : QName) (a : AttrArg) (v : Value)
     (h : (convValue par m attr a).2 = .ok v) :
     (isRefAttr attr = true → isQn v = true) ∧ (isTimeAttr attr = true → isDt v = true) ∧
     (isProvAttr attr = false → normalLit v = true) := by
@@ -129,7 +190,7 @@ theorem convValue_kind (par : Option NsMgr) (m : NsMgr) (attr : QName) (a : Attr
       refine ⟨fun hr => absurd hr href, fun _ => hv, ?_⟩
       intro hp; simp [isProvAttr, htime] at hp
     · next htime =>
-      exact ⟨fun hr => absurd hr href, fun ht => absurd ht htime, fun _ => autoLiteral_normal _ _ _ _ h⟩
+      exact ⟨fun hr => absurd hr href, fun ht => absurd ht htime, fun _ => autoLiteral_normal _ hm _ _ _ h⟩
 
 /-- inserting a value of the right kind under a non-PROV attribute or into an empty slot keeps `Normal` -/
 theorem insert_normal (r : Record) (attr : QName) (v : Value) (hn : Normal r)
@@ -189,53 +250,66 @@ theorem storeValue_normal (r : Record) (attr : QName) (v : Value) (hn : Normal r
 
 /-- `add_asserted_type` (after the fix) stores a normalised value under prov:type and keeps the
     record normal -/
-theorem c05_addAssertedType_normal (m : NsMgr) (r : Record) (x : ArgVal) (f : Option FloatAtom)
+theorem c05_addAssertedType_normal (m : NsMgr) (hm : m.Inv1) (r : Record) (x : ArgVal) (f : Option FloatAtom)
     (v : Value) (hn : Normal r) (h : (autoLiteral m x f).2 = .ok v) :
     Normal (r.insert (provQ "type") v) := by
   have h1 : isRefAttr (provQ "type") = false := by decide
   have h2 : isTimeAttr (provQ "type") = false := by decide
   exact insert_normal r _ v hn (fun hh => by rw [h1] at hh; cases hh) (fun hh => by rw [h2] at hh; cases hh)
-    (fun _ => autoLiteral_normal m x f v h) (Or.inl (by decide))
+    (fun _ => autoLiteral_normal m hm x f v h) (Or.inl (by decide))
 
-/-- one (name, value) pair of `add_attributes` keeps the record normal, whatever the representation
-    of name and value, whether or not the call fails -/
-theorem addOne_normal (par : Option NsMgr) (m : NsMgr) (r : Record) (a : AttrArg) (hn : Normal r) :
-    Normal (addOne par false m r a).2.1 := by
+theorem convValue_inv1 (par : Option NsMgr) (m : NsMgr) (hm : m.Inv1) (attr : QName) (a : AttrArg) :
+    (convValue par m attr a).1.Inv1 := by
+  unfold convValue
+  split
+  · split
+    · exact NsMgr.validName_inv1 hm _ _
+    · exact hm
+  · split
+    · split <;> exact hm
+    · exact autoLiteral_inv1 m hm _ _
+
+/-- one (name, value) pair of `add_attributes` keeps the record normal (and the manager's invariant),
+    whatever the representation of name and value, whether or not the call fails -/
+theorem addOne_normal (par : Option NsMgr) (m : NsMgr) (hm : m.Inv1) (r : Record) (a : AttrArg) (hn : Normal r) :
+    Normal (addOne par false m r a).2.1 ∧ (addOne par false m r a).1.Inv1 := by
   unfold addOne
   split
-  · exact hn
+  · exact ⟨hn, hm⟩
   · simp only []
+    have h1 := NsMgr.validName_inv1 hm par a.name
     split
-    · exact hn
+    · exact ⟨hn, h1⟩
     · next attr _ =>
+      have h2 := convValue_inv1 par _ h1 attr a
       split
-      · exact hn
-      · exact hn
+      · exact ⟨hn, h2⟩
+      · exact ⟨hn, h2⟩
       · next v hv =>
-        obtain ⟨h1, h2, h3⟩ := convValue_kind _ _ _ _ _ hv
-        exact storeValue_normal r attr v hn h1 h2 h3
+        obtain ⟨k1, k2, k3⟩ := convValue_kind _ _ h1 _ _ _ hv
+        exact ⟨storeValue_normal r attr v hn k1 k2 k3, h2⟩
 
-theorem addAttrsLoop_normal (par : Option NsMgr) (m : NsMgr) (r : Record) (as : List AttrArg)
-    (hn : Normal r) : Normal (addAttrsLoop par false m r as).2.1 := by
+theorem addAttrsLoop_normal (par : Option NsMgr) (m : NsMgr) (hm : m.Inv1) (r : Record) (as : List AttrArg)
+    (hn : Normal r) : Normal (addAttrsLoop par false m r as).2.1 ∧ (addAttrsLoop par false m r as).1.Inv1 := by
   induction as generalizing m r with
-  | nil => exact hn
+  | nil => exact ⟨hn, hm⟩
   | cons a rest ih =>
     unfold addAttrsLoop
-    have h1 := addOne_normal par m r a hn
+    have h1 := addOne_normal par m hm r a hn
     generalize hres : addOne par false m r a = res at h1
     obtain ⟨m', r', e⟩ := res
     cases e with
-    | none => exact ih m' r' h1
+    | none => exact ih m' h1.2 r' h1.1
     | some err => exact h1
 
 /-- **C05**: `add_attributes` (dict or pair-list form, any argument representation) keeps a record in
     normal form, outside the PROV-JSON membership compatibility path (`isCollectionCall`). -/
-theorem c05_addAttributes_preserves_normal (par : Option NsMgr) (m : NsMgr) (r : Record)
+theorem c05_addAttributes_preserves_normal (par : Option NsMgr) (m : NsMgr) (hm : m.Inv1) (r : Record)
     (as : List AttrArg) (hc : isCollectionCall as = false) (hn : Normal r) :
-    Normal (Record.addAttributes par m r as).2.1 := by
+    Normal (Record.addAttributes par m r as).2.1 ∧ (Record.addAttributes par m r as).1.Inv1 := by
   unfold Record.addAttributes
   rw [hc]
-  exact addAttrsLoop_normal par m r as hn
+  exact addAttrsLoop_normal par m hm r as hn
 
 /-- a second, different value for a PROV formal attribute is refused with ProvException and the
     record is unchanged -/
